@@ -279,7 +279,8 @@ def claimRevisions (c : Cfg) (cache : Cache) (parent : J) : PE (List J) := do
   let all := if ns == "" then cache.revisions else cache.revisions.filter (fun r => getNamespace r == ns)
   let cx : ClaimCtx := { parentT := c.parentTarget parent, parent,
                          parentRef := controllerRefTo c.parentAPIVersion c.parentKind parent, selector,
-                         childT := fun o => revTarget ns (getName o), goneReason := "Gone" }
+                         childT := fun o => revTarget ns (getName o), goneReason := "Gone", typed := true,
+                         clientRefuses := ns == "" }
   let (claimed, errs) ← PE.lift (claimAll cx all none)
   if !errs.isEmpty then PE.fail "can't claim ControllerRevisions" else pure claimed
 
@@ -319,6 +320,13 @@ def revUnchanged (observed : J) (newChildren : List CGroup) : Bool :=
 /-- `manageRevisions`: the first failure aborts -/
 def manageRevisions (ns : String) (observed : List J) (desired : List (J × List CGroup)) : PE Unit := do
   let desiredNames := desired.map (fun d => getName d.1)
+  -- ControllerRevisions are namespaced: with a cluster-scoped parent the typed client refuses every
+  -- request (empty namespace) before sending it, so the first needed write fails the sync
+  let needsWrite := observed.any (fun rev => !desiredNames.contains (getName rev)) ||
+    desired.any (fun d => match observed.find? (fun o => getName o == getName d.1) with
+      | some old => !revUnchanged old d.2
+      | none => true)
+  if ns == "" && needsWrite then PE.fail "an empty namespace may not be set" else
   observed.forM (fun rev => do
     if desiredNames.contains (getName rev) then pure ()
     else
